@@ -43,6 +43,17 @@ class OA(np.ndarray):
             return v
         return np.ndarray.imag.__get__(self)
 
+    def __setitem__(self, key, value):
+        # a float array refuses an array (even of one element) for a single element; an object array would silently store it
+        if self.dtype == object and isinstance(value, np.ndarray) and value.ndim > 0 and not isinstance(key, (slice, np.ndarray, list)):
+            try:
+                single = np.ndim(np.empty(self.shape, dtype=np.int8)[key]) == 0
+            except Exception:
+                single = False
+            if single:
+                raise ValueError('setting an array element with a sequence.')
+        np.ndarray.__setitem__(self, key, value)
+
     def astype(self, dtype, *a, **k):
         if self.dtype == object:
             try:
